@@ -1921,7 +1921,23 @@ class Body:
         Returns (ok, witness_path or None)."""
         return self.must_pass_edges(start_blocks, through, (), targets)
 
-    def must_pass_edges(self, start_blocks, through, discharge_edges=(), targets=None):
+    def must_pass_assuming(self, switch_block, variant, through, targets=None):
+        """must_pass from a match, for the value it matches on being `variant` - also when the same value is matched on again further down
+        (`if matches!(event, A) {..}; ..; if matches!(event, B(_)) {..}`): every later match on it follows the same variant."""
+        si = self.switch_info(switch_block)
+        ve = self.variant_edges(switch_block) or {}
+        idx = {nm: k for k, nm in ((si or {}).get("names") or {}).items()}.get(variant)
+        t = self.term(switch_block)
+        p = op_place(t["discr"]) if t.get("k") == "switch" else None
+        dk = self._disc_map().get(p[0]) if p is not None and not p[1] else None
+        tgt = ve.get(variant, ve.get("_"))
+        if tgt is None:
+            return False, None
+        if dk is None or idx is None:
+            return self.must_pass_edges([tgt], through, (), targets)
+        return self.must_pass_edges([tgt], through, (), targets, env0=((("D", dk[0], dk[1]), ("is", idx)),))
+
+    def must_pass_edges(self, start_blocks, through, discharge_edges=(), targets=None, env0=()):
         """Like must_pass, but a path is also discharged by traversing one of discharge_edges
         (pairs (a, s))."""
         through = set(through)
@@ -1932,7 +1948,7 @@ class Body:
         for s in start_blocks:
             if s in through:
                 continue
-            st = (s, ())
+            st = (s, tuple(env0))
             if st not in parent:
                 parent[st] = None
                 dq.append(st)
@@ -2183,7 +2199,7 @@ class Body:
             return self.reachable_from(list(start_blocks))
         return blocks
 
-    def eval_const(self, args, cap=20000):
+    def eval_const(self, args, cap=20000, want_option=False):
         """Evaluate this (small, pure) function on constant arguments: {parameter index: constant} -> set of possible results (None = not a constant).
         However the function is written - `==` chains, `match`, `matches!`, helper calls spliced in - only its value on the given input counts."""
         out = set()
@@ -2199,7 +2215,12 @@ class Body:
             seen.add((b, env))
             d = self._cp_transfer(b, env)
             if b in exits:
-                out.add(d.get((0, ())))
+                if want_option:
+                    # an Option result: ("None",) / ("Some", constant payload or None when it is not a constant)
+                    v_ = d.get((0, "variant"))
+                    out.add(None if v_ is None else ("None",) if v_ == 0 else ("Some", d.get((0, (0,)))))
+                else:
+                    out.add(d.get((0, ())))
                 continue
             t = self.term(b)
             succs = self.succ[b]
